@@ -49,6 +49,10 @@ def gen_case(streams, tier):
     has_mem = any(not m.get('rom') for m in script['mems'])
     init = gen.gen_init(g, script, allow_default=not (with_compiled and has_mem))
     labels = ['sim', 'fast'] + (['compiled'] if with_compiled else [])
+    if g.random() < 0.3:
+        # a second instance of one simulator class on the same block, stepped in between the
+        # others: class-level or module-level state shared by instances would show
+        labels.append(g.choice(['sim#2', 'fast#2']))
     f = streams['faults']
     faults = []
     ins = [(w['n'], w['w']) for w in script['wires'] if w['k'] == 'I']
@@ -136,7 +140,7 @@ def run(case, res):
     reps = []
     for lab in case['labels']:
         try:
-            reps.append(replica.Replica(lab, replica.make_sim(lab, live, init)))
+            reps.append(replica.Replica(lab, replica.make_sim(lab.split('#')[0], live, init)))
         except (pyrtl.PyrtlError, pyrtl.PyrtlInternalError) as e:
             return Violation('constructor', 'simulator_refuses_valid_block',
                              {'sim': lab, 'exc': repr(e)[:300]}, [lab, case['config']])
@@ -292,7 +296,7 @@ def candidates(case):
         c['interleave'] = _flat(c['labels'], k)
         yield c
     if len(case['labels']) > 2:
-        for drop in ('compiled', 'fast'):
+        for drop in ('compiled', 'fast', 'sim#2', 'fast#2'):
             c = copy.deepcopy(case)
             c['labels'] = [x for x in c['labels'] if x != drop]
             c['interleave'] = _flat(c['labels'], len(cyc))
